@@ -445,12 +445,64 @@ class C08(SimSpec):
 
     def strategy(self, tier):
         kw = self.gen_kwargs(tier)
+        return self.strategy_with_probe(self.base_strategy(tier))
+
+    def base_strategy(self, tier):
+        kw = self.gen_kwargs(tier)
         return mix((3, scenarios(min_obs=2, delays=True, **kw)),
+                   (2, scenarios(max_obs=2, modes=('roomy',), max_nodes=2, max_machines=kw['max_machines'])),
                    (1, scenarios(min_obs=2, few_machines=True, **kw)),
                    (2, crowd(kw, min_obs=3, delays=True)),
                    (2, limited(kw)), (2, tight(kw)),
                    (1, scenarios(unsorted=True, min_obs=2, **kw)),
                    (1, scenarios(min_obs=3, start_gaps=(0, 0, 1), **kw)))
+
+    def strategy_with_probe(self, base):
+        def add(pair):
+            sc, d = pair
+            sc = dict(sc)
+            sc['idle_probe'] = d
+            return sc
+        return st.tuples(base, st.sampled_from([None, None, -1, 0, 0, 1, 2])).map(add)
+
+    def run(self, sc):
+        tr = run_scenario(sc)
+        tr.probe = None
+        d = sc.get('idle_probe')
+        if d is not None and tr.status == 'completed' and sc['mode'] == 'roomy' and sc.get('unit', 'seconds') == 'seconds':
+            # adaptive second run: one more small observation planned for the moment the system has just gone
+            # completely idle (the first run tells when).  Everything before that moment is unchanged, so the
+            # "due while completely idle => starts exactly on time" clause applies to it (the oracle re-checks
+            # idleness itself - the probe only makes that situation frequent).
+            s = int(tr.final_now) + d
+            if s > max(o['start'] for o in sc['obs']):
+                sc2 = json.loads(json.dumps(sc))
+                sc2.pop('idle_probe', None)
+                name = 'zz' + str(len(sc['obs']))
+                while name in [o['name'] for o in sc2['obs']]:
+                    name += 'z'
+                sc2['obs'].append({"name": name, "start": s, "duration": 1, "demand": 1, "rate": 1, "ingest": 1,
+                                   "wf": {"nodes": [{"id": 0, "comp": 1}], "edges": []}, "plan": {"0": 0}})
+                if sc2['alg'].get('split'):
+                    sc2['obs'][-1]['split'] = [1, len(sc2['machines'])]
+                vols = sum(o['rate'] * o['duration'] for o in sc2['obs'])
+                sc2['hot']['capacity'] = max(sc2['hot']['capacity'], int(vols / 0.6) + 2)
+                tr.probe = run_scenario(sc2)
+                tr.probe.probe_name = name
+        return tr
+
+    def violations(self, tr):
+        out = O.C08(tr)
+        if tr.probe is not None:
+            for v in O.C08(tr.probe):
+                v = dict(v)
+                v['part'] = 'probe_' + v['part']
+                v['msg'] = f"(with an extra observation {tr.probe.probe_name} planned at the end of the first run) " + v['msg']
+                out.append(v)
+            for k in ('idle_due', 'ontime_starts', 'postponed_starts'):
+                tr.counts[k] = tr.counts.get(k, 0) + tr.probe.counts.get(k, 0)
+            tr.counts['idle_probe_runs'] = 1
+        return out
 
     def nontrivial(self, tr):
         return bool(tr.counts.get('postponed_starts') and tr.counts.get('idle_due'))
@@ -458,7 +510,7 @@ class C08(SimSpec):
     def classes(self, tr):
         c = tr.counts
         return {k: c.get(k, 0) for k in ('postponed_starts', 'ontime_starts', 'idle_due', 'buffer_refusals',
-                                         'machine_refusals', 'capacity_refusals')}
+                                         'machine_refusals', 'capacity_refusals', 'idle_probe_runs')}
 
     def summary(self, tr):
         s = super().summary(tr)
